@@ -2,6 +2,7 @@ package main
 
 import (
 	"bytes"
+	"sort"
 	"errors"
 	"fmt"
 	"math/big"
@@ -68,6 +69,7 @@ type c9AU struct {
 type c9ClientSpec struct {
 	at int
 	pl string // "mv" or "s<k>"
+	ad int    // per mille of the pause before write `at` after which the client is started (0 = right after the previous write, 1000 = right before this one)
 }
 
 type c9Delivery struct {
@@ -220,6 +222,8 @@ type c9Runner struct {
 	lastWrite time.Time
 	fails     []string
 	evaluated bool
+	linChecked, linExact bool
+	linC                 *big.Rat // NTP − DTS of the leading track's units, ns (when exactly linear)
 	idle      bool // the clients were closed after their delivery logs had stopped growing (not at the deadline)
 	maxSeg    *big.Rat // longest segment of the paced part of the case, seconds (oracle)
 	stats     []string
@@ -251,8 +255,13 @@ func (r *c9Runner) Step(line string) []string {
 		n := int(atoi64(a["cl"]))
 		ats := strings.Split(a["at"], ",")
 		pls := strings.Split(a["pl"], ",")
+		ads := strings.Split(a["ad"], ",")
 		for i := 0; i < n && i < len(ats) && i < len(pls); i++ {
-			r.specs = append(r.specs, c9ClientSpec{at: int(atoi64(ats[i])), pl: pls[i]})
+			sp := c9ClientSpec{at: int(atoi64(ats[i])), pl: pls[i], ad: 1000}
+			if i < len(ads) && ads[i] != "" {
+				sp.ad = int(atoi64(ads[i]))
+			}
+			r.specs = append(r.specs, sp)
 		}
 		return nil
 	case "track":
@@ -374,7 +383,25 @@ func (r *c9Runner) write(a map[string]string) string {
 				w = 2 * time.Second
 				r.t0 = r.t0.Add(-(due.Sub(now) - w))
 			}
-			time.Sleep(w)
+			// clients attached at this index start somewhere inside the pause (`ad` per mille of it)
+			type pend struct{ i, ad int }
+			var ps []pend
+			for i, s := range r.specs {
+				if s.at == r.wIdx && !r.clientStarted(i) && s.ad < 1000 {
+					ps = append(ps, pend{i, s.ad})
+				}
+			}
+			sort.Slice(ps, func(a, b int) bool { return ps[a].ad < ps[b].ad })
+			start := time.Now()
+			for _, p := range ps {
+				if d := time.Duration(int64(w) * int64(p.ad) / 1000); time.Since(start) < d {
+					time.Sleep(d - time.Since(start))
+				}
+				r.runs = append(r.runs, r.newClient(p.i, r.specs[p.i]))
+			}
+			if rest := w - time.Since(start); rest > 0 {
+				time.Sleep(rest)
+			}
 		}
 	}
 	r.startClients()
@@ -476,7 +503,8 @@ func (t *c9Transport) RoundTrip(req *http.Request) (*http.Response, error) {
 		sv.zero = len(body) == 0
 	}
 	if res.StatusCode == 200 && strings.HasSuffix(req.URL.Path, ".ts") {
-		sv.empty = c9TSLacksTrack(body, len(t.r.tracks))
+		sv.empty = c9TSLacksTrack(body, len(t.r.tracks)) && len(body) > 0
+		sv.zero = len(body) == 0
 	}
 	if res.StatusCode == 200 {
 		sv.stream, sv.pays, sv.media = t.r.c9DecodeMedia(req.URL.Path, body)
